@@ -110,6 +110,7 @@ func checkC08(c *ev.Ctx) {
 	}
 	nhist := n
 	c.MinEvals(int64(n / 2))
+	defaultCtors(c, "lzma2")
 	par(n, func(i int) {
 		id := fmt.Sprintf("h%d", i)
 		noteCase(id)
